@@ -3,6 +3,7 @@ import glob
 import math
 import os
 import shutil
+import copy
 import sqlite3
 import tempfile
 import uuid as uuidlib
@@ -180,6 +181,8 @@ def compare_sources(kind, orig, back, res, fmt, single):
 def check_case(c, big=1):
     res = Res()
     cat, full = make_catalog(c, big)
+    # what is read back is compared with the values the caller HAD: a snapshot taken before the writer sees the objects
+    snap = copy.deepcopy(cat)
     fmt = c["fmt"]
     d = workdir("c18_")
     try:
@@ -207,7 +210,7 @@ def check_case(c, big=1):
                         for nme, v in zip(names, r):
                             setattr(s, nme, float("nan") if v is None else v)
                         back.append(s)
-                    compare_sources(kind, cat[kind], back, res, fmt, False)
+                    compare_sources(kind, snap[kind], back, res, fmt, False)
             finally:
                 conn.close()
         else:
@@ -232,7 +235,7 @@ def check_case(c, big=1):
                     res.bad("columns", "%s %s: columns missing after read: %r" % (fmt, kind, missing), fmt=fmt)
                     continue
                 back = catalogs.table_to_source_list(table, src_type=CLS[kind])
-                compare_sources(kind, cat[kind], back, res, fmt, fmt == "fits")
+                compare_sources(kind, snap[kind], back, res, fmt, fmt == "fits")
     finally:
         shutil.rmtree(d, ignore_errors=True)
     ntypes = sum(1 for k in cat if cat[k])
